@@ -127,7 +127,11 @@ def h_queue(cx, fixed_ops, n_free, init=1, share=False):
             avail = [o for o in OPS if not (o in ("get", "json", "cur") and not model.pending)]
             op = cx.choice("op%d" % i, avail)
         lab = "%d:%s" % (i, op)
-        if op in ("addU", "addP", "addR"):
+        if op == "addB":
+            # bulk insertion into the queue as it is now (add_events), two events of different kinds
+            q.add_events([_new_event(cx, model, "Recompute", lab), _new_event(cx, model, "Unplug", lab)])
+            cx.tag("batch")
+        elif op in ("addU", "addP", "addR"):
             q.add_event(_new_event(cx, model, {"U": "Unplug", "P": "Plugin", "R": "Recompute"}[op[-1]], lab))
         elif op == "last":
             _observers(cx, model, q, lab, last=True)
@@ -203,6 +207,10 @@ def jobs(tier):
     for f in ([("json",), ("cur",)] if q else [("json",), ("cur",), ("json", "addP"), ("json", "addU"), ("addR", "json")]):
         js.append(Job("init2[%s+%d]" % (",".join(f), n_free), h_queue, dict(fixed_ops=f, n_free=n_free, init=2), functions=FUNCS, max_paths=2000000, timeout=12000,
                       bounds=dict(initial_events=2, operations=len(f) + n_free, first_ops=list(f), alphabet=OPS, timestamps="[0,%d]" % TMAX), cost=9))
+    # bulk insertion (add_events) in the middle of a history, with the observers before and after
+    for f in ([("last", "addB", "last"), ("get", "addB", "last"), ("addB", "cur")] if q else [("last", "addB", "last"), ("get", "addB", "last"), ("addB", "cur"), ("cur", "addB", "last"), ("addB", "json", "last"), ("json", "addB", "get")]):
+        js.append(Job("batch[%s+%d]" % (",".join(f), n_free), h_queue, dict(fixed_ops=f, n_free=n_free, init=1), functions=FUNCS, max_paths=2000000, timeout=12000, expect_tags=("batch",),
+                      bounds=dict(initial_events=1, operations=len(f) + n_free, first_ops=list(f), alphabet=OPS + ["addB = add_events([Recompute, Unplug])"], timestamps="[0,%d]" % TMAX), cost=9))
     # every EV event belongs to one and the same session (an unplug and a plug-in of the same car may be pending for the same period)
     for f in ([("cur",), ("get",), ("json",)] if q else [("cur",), ("get",), ("json",), ("addP", "cur"), ("addU", "get"), ("addU", "json"), ("addP", "json")]):
         js.append(Job("shared_car[%s+%d]" % (",".join(f), n_free), h_queue, dict(fixed_ops=f, n_free=n_free, init=2, share=True), functions=FUNCS, max_paths=2000000, timeout=12000,
